@@ -173,6 +173,14 @@ impl Value {
             }
         }
 
+        // `[]` fits every `[T...]`: a name for it could be bound to lists of different element types
+        if ident.ty()?.has_list_without_element_type() {
+            bail!(
+                "Hint: specify this list's element type like `{}: [TYPE...] = []`",
+                ident.name()
+            )
+        }
+
         Ok(())
     }
 
